@@ -1,7 +1,8 @@
 """C10 - URI encode/decode are total, lossless inverses with RFC 3986 output."""
 PROP = 'C10'
-LEAN_MODULES = ['FalconModel.UriEncodeProofs', 'FalconModel.Utf8', 'FalconModel.Utf8Enc', 'FalconModel.Utf8Proofs', 'FalconModel.UriStr', 'FalconModel.UriStrProofs']
-DRIVERS = ['uddriver']
+LEAN_MODULES = ['FalconModel.UriEncodeProofs', 'FalconModel.Utf8', 'FalconModel.Utf8Enc', 'FalconModel.Utf8Proofs', 'FalconModel.UriStr', 'FalconModel.UriStrProofs',
+                'FalconModel.Forwarded', 'FalconModel.ForwardedProofs', 'FalconModel.UnquoteStringProofs']
+DRIVERS = ['uddriver', 'fwdriver']
 THEOREMS = [
     # falcon.util.uri.decode: the three code paths = the left-to-right reference decoder (round 0)
     'Probe.decodeImpl_eq_ref', 'Probe.joinTokensBA_eq', 'Probe.decode_pct_tokens', 'Probe.splitPct_spec', 'Probe.decode_encode',
@@ -28,6 +29,8 @@ THEOREMS = [
     'Us.allowedValue_ascii', 'Us.allowedUri_ascii',
     'Us.encodeCheckStr_idem', 'Us.encodeCheckStr_fixpoint', 'Us.encodeCheckEscaped_idem', 'Us.encodeValueCheckEscaped_idem',
     'Us.encodeCheckEscaped_fixpoint', 'Us.encodeValueCheckEscaped_fixpoint',
+    # falcon.util.uri.unquote_string = Fw.unquoteString (Forwarded.lean, shared with C09): all three paths, any characters
+    'Fw.unquoteString_general', 'Fw.unquoteString_quote', 'Fw.unquoteString_unchanged', 'Fw.unqGen_items_general', 'Fw.unq3_eq_gen', 'Fw.unquoteString_quoted',
     'Us.parseHost_plain', 'Us.parseHost_port', 'Us.parseHost_v6', 'Us.parseHost_v6_port', 'Us.parseHost_bytes_differs_witness',
 ]
 STATEMENTS = {
@@ -57,6 +60,9 @@ STATEMENTS = {
     'Us.decode_eq_bytes': 'for every str s of scalar values, the str-level transcription of decode (str tests, str.replace, the short-circuit returning the str itself, encode() only on the slow path) = decodeReplace(byte-level decode(s.encode()))',
     'Us.encodeStr_eq_bytes': 'the str-level encoder (rstrip fast path returning the str, join of encode_char results) = the byte-level encoder on s.encode(), read as ASCII characters (needs: the allowed table is ASCII, proved for both tables)',
     'Us.encodeCheckStr_eq_bytes': 'the same refinement for the check-escaped encoders, including str.split("%") and the hex-digit test on characters',
+    'Fw.unquoteString_general': 'unquote_string on ANY input bracketed by double quotes whose inside is a sequence of positions - a plain character other than the backslash (any character at all otherwise: controls, non-ASCII, a bare double quote) or a backslash followed by any character - returns exactly the characters the positions denote: left-to-right removal of the quotes and of each quoted-pair backslash; all three code paths (no backslash / no double backslash / split-replace-join, joined by Fw.unq3_eq_gen)',
+    'Fw.unquoteString_quote': 'round trip: unquote_string inverts the quoted-string writer (backslash before " and \\, everything else verbatim) for EVERY string',
+    'Fw.unquoteString_unchanged': 'input shorter than 2 characters or not starting AND ending with a double quote is returned unchanged',
     'Us.decode_encode_value_str': 'decode(encode_value(s), unquote_plus) = s for EVERY str s of Unicode scalar values and both settings of unquote_plus - at str level, through str.encode() and bytes.decode("utf-8","replace")',
     'Us.decode_encode_uri_str': 'decode(encode(s), unquote_plus=False) = s for every str s of Unicode scalar values',
     'Us.decode_encode_uri_str_plus_witness': 'decode(encode("a+b"), unquote_plus=True) = "a b" (str level): why whole-URI encoding needs unquote_plus=False',
@@ -78,7 +84,7 @@ TRUSTED = [
 ASSUMPTIONS = [
     'str arguments consist of Unicode scalar values (a lone surrogate makes str.encode() raise UnicodeEncodeError inside encode/decode; such strings cannot come from a WSGI/ASGI server and are outside the quantifier)',
     'parse_host is specified on RFC 3986 authorities host[:port] (reg-name, IPv4, bracketed IP-literal; port = *DIGIT); on other input it may raise ValueError (C09 covers the request accessors)',
-    'unquote_string is specified on RFC 7230 quoted-strings; checked by the oracle only (no Lean model)',
+    'unquote_string is specified on RFC 7230 quoted-strings (oracle); the model Fw.unquoteString transcribes all three paths of the function and is compared with it on every generated input of code points < 256 (the fwdriver line protocol is Latin-1); the theorems hold for arbitrary characters',
     'the Cython twin falcon/cyutil/uri.pyx cannot be rebuilt offline and is not exercised (source mode blocks falcon.cyutil)',
 ]
 RULE = ('ALL strings of length <= 3 (quick) / <= 4 (thorough) over the 18-letter alphabet {% + 0 9 A F a f g / ? - ~ space NUL e-acute euro U+1F600} '
@@ -97,7 +103,7 @@ RULE = ('ALL strings of length <= 3 (quick) / <= 4 (thorough) over the 18-letter
 PARTIAL = ('proved on UTF-8 bytes AND on str (code points): decode = reference, output grammar (ASCII), both round trips, check-escaped fixpoint/idempotence, parse_host on valid '
            'authorities; the str-level functions are separate transcriptions proved to refine the byte-level ones through U8.encode / U8.decodeReplace, with decodeReplace(encode(s)) = s proved. '
            'Not proved: that U8.encode / U8.decodeReplace are CPython\'s codecs (transcribed, tied by correspondence); what decode does with an ill-formed UTF-8 escape sequence is only characterised as '
-           '"scalar values out, U+FFFD for ill-formed parts" (no theorem pins the maximal-subpart grouping); unquote_string (oracle only); int() beyond ASCII digits.')
+           '"scalar values out, U+FFFD for ill-formed parts" (no theorem pins the maximal-subpart grouping); int() beyond ASCII digits. unquote_string: proved (all three paths = left-to-right unquoting for arbitrary characters, inverse of the quoted-string writer, non-bracketed input unchanged); what it returns for a bracketed input whose inside ends in a lone backslash is only shown by example (the backslash is dropped).')
 JOBS = {'quick': 4, 'thorough': 16}
 
 ALPHABET = ['%', '+', '0', '9', 'A', 'F', 'a', 'f', 'g', '/', '?', '-', '~', ' ', '\x00', 'é', '€', '\U0001F600']
@@ -499,7 +505,14 @@ def run(ctx):
             shost(a, call(uri.parse_host, a))
             ctx.count('authority_non_ascii')
 
-    # ---------------- 4. unquote_string (oracle only)
+    # ---------------- 4. unquote_string: oracle + correspondence with Fw.unquoteString (fwdriver `unquote`)
+    sessq = ctx.session('uri.unquote_string = Fw.unquoteString model (all three paths; Latin-1 inputs)', 'fwdriver')
+
+    def tie_q(x, y):
+        if isinstance(y, str) and all(ord(c) < 256 for c in x) and ' ' not in hx(x.encode('latin-1')):
+            sessq.case({'fn': 'unquote_string', 'input': x})
+            sessq.op('unquote ' + (hx(x.encode('latin-1')) or '-'), hx(y.encode('latin-1')) or '-')
+            ctx.count('quoted_string_modelled')
     for _ in range(ctx.n(2000, 20000)):
         parts = []
         for _ in range(rnd.randint(0, 8)):
@@ -510,12 +523,19 @@ def run(ctx):
         want = ''.join(v for _, v in parts)
         q = '"' + inner + '"'
         got = call(uri.unquote_string, q)
+        tie_q(q, got)
+        if rnd.random() < 0.25:
+            # not necessarily a quoted-string: arbitrary characters incl. bare quotes / trailing backslashes (model comparison only)
+            junk = ''.join(rnd.choice(['"', '\\', '\\\\', 'a', ' ', '\n', '\x00', 'é', '\xff', ',']) for _ in range(rnd.randint(0, 7)))
+            junk = rnd.choice(['', '"', junk, '"' + junk, junk + '"', '"' + junk + '"'])
+            tie_q(junk, call(uri.unquote_string, junk))
         ok = got == want
         if ok and rnd.random() < 0.3:
             # not a quoted-string: returned unchanged
             plain = rnd.choice(['', 'a', '"', 'abc', 'a"', '"a', 'a\\b', inner.replace('"', '')])
             if not (len(plain) >= 2 and plain[0] == '"' and plain[-1] == '"'):
                 g2 = call(uri.unquote_string, plain)
+                tie_q(plain, g2)
                 if g2 != plain:
                     ok = False; got = g2; q = plain; want = plain
         ctx.oracle('unquote_string(quoted-string) == left-to-right removal of the quotes and of each quoted-pair backslash; other input unchanged', ok,
@@ -523,6 +543,7 @@ def run(ctx):
         ctx.seen(('q', q), '\\' in q)
         ctx.count('quoted_string')
     sess.finish()
+    sessq.finish()
 
 
 def _norm_host(s):
@@ -548,5 +569,5 @@ LEVEL_TEXT = ('Machine-checked proofs (Lean 4) on UTF-8 byte strings and, lifted
               '(host, port) on reg-name/IPv4/IP-literal authorities with absent, empty or numeric port. The model is tied to falcon/util/uri.py on every run by a differential '
               'correspondence over the complete bounded string space plus long random strings, and an independent oracle written from the statement decides failing inputs.')
 LEVEL_NOTE = ('Trusted: Lean kernel + standard axioms; the harness and oracle; that the UTF-8 models are CPython\'s str.encode / replace-decoding (transcribed, tied by correspondence; their inverse law is proved); '
-              'unquote_string is oracle-only. The Cython twin is not exercised.')
+              'unquote_string: model Fw.unquoteString tied by correspondence. The Cython twin is not exercised.')
 TECHNIQUE = 'Lean 4 proofs about a transcribed model (3 decode paths, 4 encoders, parse_host; byte level and str level with a refinement theorem between them; UTF-8 codec pair) + exhaustive-bounded and random differential correspondence + statement oracle'
